@@ -47,6 +47,8 @@ def run(chk):
     chk.rule("C18.O1d", "the offered derivatives are the interpolant's own first derivative and that derivative's first derivative", 5)
     from .c07 import tableform_derivs
     chk.attempt("O1d", lambda: tableform_derivs(chk, P, "C18.O1d"))
+    # interpolation classes that are not wrappers of a library interpolant: knots reproduced, zero outside (evaluated on knots)
+    chk.attempt("O1k", lambda: tableform_derivs(chk, P, "C18.O1", clauses=("points",)))
     chk.attempt("O2", lambda: xy_parsing(chk, P))
     chk.attempt("O3", lambda: get_value(chk, P))
     chk.attempt("O4", lambda: dat_reader(chk, P))
